@@ -382,3 +382,69 @@ def Builder.apply (b : Builder) : BOp → Builder
 def configured (ops : List BOp) : Option Nat := (ops.foldl Builder.apply Builder.new).timeout
 
 end Timeout
+
+/-! ## Audit aC09 (appended): dimensions that must be invisible, stated explicitly
+
+* what the call itself reports (an error status of the handler's own is "its result" as much as OK);
+* several CONNECTIONS of one `transport::Server` (`MakeSvc::call(&mut self, io)` runs per accepted
+  connection and copies `self.timeout`);
+* a response future that changes hands (polled by one task, then moved to and awaited by another):
+  `ResponseFuture::poll` polls the `Sleep` on every poll, and `Sleep::poll` keeps the waker of the
+  LAST poller. -/
+namespace Timeout
+
+/-- What the caller has in hand at the end: `(code, message, time)`, or nothing. `own` is the
+status the handler / peer itself reports (code 0 = OK, or an error status of its own): the
+middleware hands the wrapped future's output on as it is (`ready.map_err(Into::into)`;
+`RecoverError`: `Ok(response) => response.map(ResponseBody::full)`), only its own `TimeoutExpired`
+becomes `expiredStatus`. -/
+def seen (own : Nat × Bytes) : Done → Option (Nat × Bytes × Nat)
+  | .inner t => some (own.1, own.2, t)
+  | .timeout t => some (expiredStatus.1, expiredStatus.2, t)
+  | .pending => none
+
+/-- `MakeSvc { timeout, .. }`: the value `serve_internal` builds once per server; its
+`call(&mut self, io)` runs once per accepted connection. -/
+structure Srv where
+  timeout : Option Nat
+deriving DecidableEq, Repr
+
+/-- `MakeSvc::call(&mut self, io)`: `let timeout = self.timeout;` (`Option<Duration>` is `Copy`) then
+`GrpcTimeout::new(s, timeout)`: (the `MakeSvc` afterwards, the new connection's middleware). -/
+def Srv.accept (s : Srv) : Srv × Mw := (s, ⟨s.timeout⟩)
+
+/-- NOT the code: `self.timeout.take()` — `call` takes `&mut self`, so it could move the value out:
+the first connection accepted gets the timeout, every later one none. -/
+def Srv.acceptTake (s : Srv) : Srv × Mw := (⟨none⟩, ⟨s.timeout⟩)
+
+/-- Connections in the order they are accepted, each with its requests (header, handler latency);
+the `MakeSvc` is threaded from accept to accept, each connection's requests run as `connCalls`. -/
+def serverConnsBy (accept : Srv → Srv × Mw) (s : Srv) :
+    List (List (Option Nat × Option Nat)) → List (List Done)
+  | [] => []
+  | reqs :: rest =>
+    let a := accept s
+    connCalls a.2 reqs :: serverConnsBy accept a.1 rest
+
+/-- The code. -/
+def serverConns (s : Srv) := serverConnsBy Srv.accept s
+
+/-- A `ResponseFuture` (created at time 0, sleep `T`, around something that answers after `l` or
+never) that was polled by one task while both were pending, then handed to ANOTHER task which first
+polls it at `p` and from then on whenever IT is woken.  `rearm = true` is the code: every poll
+polls the `Sleep` too (after the wrapped future), so the `Sleep` wakes the task that polled last.
+`rearm = false` is NOT the code: the `Sleep`'s waker is registered by the first poll only (and
+afterwards only `is_elapsed()` is looked at), so the new owner is woken by the wrapped future
+alone — which is polled first and therefore wins once it is there. -/
+def handoverBy (rearm : Bool) (T : Option Nat) (l : Option Nat) (p : Nat) : Done :=
+  let below := answer l
+  if below.readyBy p then below.pickedUpAt p
+  else
+    match T with
+    | none => below
+    | some tt =>
+      if tt ≤ p then .timeout p
+      else if rearm then cutAt T below
+      else below
+
+end Timeout
